@@ -232,33 +232,25 @@ func (s *supARFO) childTerminated(name gen.Atom, pid gen.PID, reason error) supA
 
 	if s.mode == 2 { // stopping (restarting)
 
-		if s.keeporder == false {
-			if len(s.wait) > 0 {
-				// return action with empty list. just wait for the child processes
-				// to be terminated
-				action.do = supActionTerminateChildren
-				return action
-			}
+		if specI < s.restartI {
+			// terminated child is not among we are waiting for termination.
+			// update the position
+			s.restartI = specI
+		}
 
-		} else {
-			if len(s.wait) > 0 {
-				// must be 0
-				panic(gen.ErrInternal)
-			}
+		if len(s.wait) > 0 {
+			// return action with empty list. just wait for the child processes
+			// to be terminated
+			action.do = supActionTerminateChildren
+			return action
+		}
 
-			if specI < s.restartI {
-				// terminated child is not among we are waiting for termination.
-				// update the position
-				s.restartI = specI
-			}
-
-			terminate := s.childrenForTermination()
-			if len(terminate) > 0 {
-				action.do = supActionTerminateChildren
-				action.reason = reason
-				action.terminate = terminate
-				return action
-			}
+		terminate := s.childrenForTermination()
+		if len(terminate) > 0 {
+			action.do = supActionTerminateChildren
+			action.reason = reason
+			action.terminate = terminate
+			return action
 		}
 
 		s.mode = 1 // starting (restarting)
